@@ -66,6 +66,9 @@ def uhf_wick(what="energy"):
         green_calls = []
 
         def h_green(it, e, ins):
+            # contract of the callee applied only to the arguments it is stated for: (walker_up, walker_dn, mo_coeff...)
+            if not (_is(ins[0], A["wu"]) and _is(ins[1], A["wd"])):
+                raise Unsupported("the Green's-function callee is not called with (walker_up, walker_dn)")
             green_calls.append(len(ins))
             return [A["Gu"], A["Gd"]]
         def h_trace(it, e, ins):
@@ -152,6 +155,14 @@ def _replay_uhf(o, what):
         o["witness"] = dict(o.get("witness") or {}, native_error=repr(e)[:300])
 
 
+def _is(x, atom_tt):
+    """x is (symbolically) the given input tensor"""
+    try:
+        return isinstance(x, T.TT) and T.equal(x, atom_tt)
+    except Unsupported:
+        return False
+
+
 def _wick_spec(what, h0, h1, L, Gf):
     X = [T.ein("gpq,pq->g", L, Gf[s]) for s in range(2)]
     if what == "fb":
@@ -199,8 +210,13 @@ def rhf_wick(what="energy", restricted=True):
         calls = []
 
         def h_green(it, e, ins):
+            # the half Green's function of the walker block that is actually passed
             calls.append(1)
-            return [A["G"][len(calls) - 1]]
+            if _is(ins[0], A["wu"]):
+                return [A["G"][0]]
+            if _is(ins[0], A["wd"]):
+                return [A["G"][1]]
+            raise Unsupported("the Green's-function callee is called with something that is not a walker block")
 
         def h_trace(it, e, ins):
             x = ins[0]
@@ -507,15 +523,22 @@ def noci_wick(what="energy"):
                  Gu=T.atom("Gu", ["d", "a", "n"]), Gd=T.atom("Gd", ["d", "b", "n"]), ok=T.atom("ok", ["d"]))
         seen = dict(green=0, ov=0)
 
+        def _args_ok(ins):
+            return len(ins) >= 4 and _is(ins[0], A["wu"]) and _is(ins[1], A["wd"]) and _is(ins[2], A["Du"]) and _is(ins[3], A["Dd"])
+
         def h_green(it, e, ins):
             if len(e.outvars) != 2 or len(e.outvars[0].aval.shape) != 3:
                 return None
+            if not _args_ok(ins):
+                raise Unsupported("per-determinant Green's function not called with (walker_up, walker_dn, dets_up, dets_dn)")
             seen["green"] += 1
             return [A["Gu"], A["Gd"]]
 
         def h_ov(it, e, ins):
             if len(e.outvars) != 1 or tuple(e.outvars[0].aval.shape) != (d,):
                 return None
+            if not _args_ok(ins):
+                raise Unsupported("per-determinant overlap not called with (walker_up, walker_dn, dets_up, dets_dn)")
             seen["ov"] += 1
             return [A["ok"]]
 
